@@ -176,7 +176,7 @@ pub fn rand_blocks(rng: &mut Rng, width: u32, n: usize) -> Vec<(u128, u128)> {
 }
 
 /// a claim derived from the issuer's effective blocks
-fn derive(rng: &mut Rng, issuer: &[(u128, u128)], width: u32, allow_outside: bool) -> Vec<(u128, u128)> {
+fn derive(rng: &mut Rng, issuer: &[(u128, u128)], width: u32, allow_outside: bool, straddle: bool) -> Vec<(u128, u128)> {
     let max = max_of(width);
     let mut out = Vec::new();
     for (l, h) in issuer {
@@ -190,6 +190,28 @@ fn derive(rng: &mut Rng, issuer: &[(u128, u128)], width: u32, allow_outside: boo
                 let b = a + rng.below(((h - a).min(1000) + 1) as u64) as u128;
                 out.push((a, b));
             }
+        }
+    }
+    if straddle && !issuer.is_empty() {
+        // a block that straddles one edge of an issuer block by a hair: ending exactly on its first element,
+        // starting exactly on its last, or stopping / starting one short of it (what a trimming or covering
+        // comparison decides with `<` against `<=`)
+        let (l, h) = issuer[rng.below(issuer.len() as u64) as usize];
+        let k = 1 + rng.below(3) as u128;
+        let blk = match rng.below(6) {
+            0 if l >= k => Some((l - k, l)),
+            1 if h <= max - k => Some((h, h + k)),
+            2 if l > k => Some((l - k, l - 1)),
+            3 if h < max - k => Some((h + 1, h + k)),
+            4 if l >= k && h <= max - k => Some((l - k, h + k)),
+            _ if l >= k => Some((l - k, l + rng.below(((h - l).min(2) + 1) as u64) as u128)),
+            _ => None,
+        };
+        if let Some(b) = blk {
+            out.retain(|(a, z)| *z < b.0 || *a > b.1);
+            out.push(b);
+            out.sort();
+            return out;
         }
     }
     if allow_outside {
@@ -213,7 +235,10 @@ pub fn generate(ctx: &mut Ctx) {
     let mut rng = Rng::new(ctx.seed ^ 0xC01);
     let pool = Pool::new(6);
     let n = if ctx.tier_thorough { 12000 } else { 1500 };
-    for _case in 0..n {
+    // the last quarter of the cases aim at the edges of the issuer's blocks (see `derive`); they come after the
+    // main stream so that the main stream is the same with and without them
+    for _case in 0..(n + n / 4) {
+        let edge = _case >= n;
         // --- trust anchor
         let mut ders: Vec<Vec<u8>> = Vec::new();
         let mut fs: Vec<String> = Vec::new();
@@ -242,7 +267,8 @@ pub fn generate(ctx: &mut Ctx) {
                 let mut s = pool.spec(level, level - 1, kind);
                 s.not_before = 1_650_000_000 + rng.below(1000) as i64;
                 s.not_after = 1_850_000_000 + rng.below(1000) as i64;
-                s.trim = rng.chance(1, 3);
+                s.trim = if edge { rng.chance(2, 3) } else { rng.chance(1, 3) };
+                let s_trim = s.trim;
                 let i4 = parse_show(&show_ip(issuer_rc.v4_resources(), true));
                 let i6 = parse_show(&show_ip(issuer_rc.v6_resources(), false));
                 let ia = parse_show(&show_as(issuer_rc.as_resources()));
@@ -252,7 +278,7 @@ pub fn generate(ctx: &mut Ctx) {
                     match rng.below(8) {
                         0 => Res::Missing,
                         1 | 2 => Res::Inherit,
-                        _ => Res::Blocks(derive(rng, iss, w, outside && which == fam)),
+                        _ => Res::Blocks(derive(rng, iss, w, outside && which == fam, edge && (s_trim || which == fam))),
                     }
                 };
                 s.v4 = pick(&mut rng, &i4, 32, 0);
@@ -262,7 +288,7 @@ pub fn generate(ctx: &mut Ctx) {
                     s.v4 = Res::Missing;
                     s.v6 = Res::Missing;
                     if matches!(s.asn, Res::Missing | Res::Inherit) && rng.chance(9, 10) {
-                        s.asn = Res::Blocks(derive(&mut rng, &ia, 32, outside));
+                        s.asn = Res::Blocks(derive(&mut rng, &ia, 32, outside, edge));
                     }
                     s.ca_issuer = Some("rsync://h/m/x.cer".into());
                     if rng.chance(9, 10) {
